@@ -8,9 +8,9 @@ for ID in "$@"; do
   ( cd $WT && git apply $D/patch.diff && go test -vet=off -count=1 -timeout 25m ./... 2>&1 | grep -v "no test files" | grep -E "^(ok|FAIL|--- FAIL|panic)" ) > $D/suite.log 2>&1
   # the two tests that are timing-dependent on the unmodified tree: re-run alone if they were the only failures
   if grep -q "^--- FAIL" $D/suite.log; then
-    others=$(grep "^--- FAIL" $D/suite.log | grep -v "TestSecondaryCache_ErrorHandler\|TestPersist_LoadingBasic" | wc -l)
-    echo "other failures than the two known timing-dependent tests: $others" >> $D/suite.log
-    ( cd $WT && go test -vet=off -count=5 -run 'TestSecondaryCache_ErrorHandler$|TestPersist_LoadingBasic$' . 2>&1 | tail -1 ) >> $D/suite.log
+    others=$(grep "^--- FAIL" $D/suite.log | grep -v "TestSecondaryCache_ErrorHandler\|TestPersist_LoadingBasic\|TestPersist_Basic" | wc -l)
+    echo "other failures than the three known timing-dependent tests: $others" >> $D/suite.log
+    ( cd $WT && go test -vet=off -count=5 -run 'TestSecondaryCache_ErrorHandler$|TestPersist_LoadingBasic$|TestPersist_Basic$' . 2>&1 | tail -1 ) >> $D/suite.log
   fi
   git -C /repo worktree remove --force "$WT" >/dev/null 2>&1
   echo "$ID: $(grep -c '^ok' $D/suite.log) ok, $(grep -c '^--- FAIL' $D/suite.log) failed tests"
